@@ -1,4 +1,5 @@
 import AmaranthVerif.Proofs.Cdc
+import AmaranthVerif.Proofs.CdcShape
 
 /-!
 # C17 — clock-domain-crossing primitives meet their latency and pulse contracts
@@ -68,6 +69,77 @@ example :
     Model.ffOut 3 4 9 0 ([.set 5, .oedge] ++ Ev.set 7 :: [.oedge, .iedge, .both]) = 5 ∧
     Model.ffOut 3 4 9 0 [.set 5, .oedge, .set 7, .oedge] = 9 ∧
     Model.ffOut 3 4 9 0 ([.set 5, .oedge] ++ Ev.set 7 :: [.oedge, .iedge, .both, .oedge]) = 7 := by
+  decide
+
+/-! ## FFSynchronizer: shapes of input and output, reset of the output domain -/
+
+/-- **The output carries the input's value.**  Whatever the widths of `i` and `o` and the
+signedness of `i`, the assignment of the last stage (which has the input's shape) to the output
+shows the two's-complement value of the `w`-bit pattern, reduced to the output's width: a signed
+input is sign-extended into a wider output, never zero-extended. -/
+theorem ff_output_carries_value (sg : Bool) (w wo p : Nat) :
+    Model.extendTo sg w wo p = delivered sg w wo p :=
+  extendTo_eq_delivered sg w wo p
+
+/-- **Delay line, any shapes, output-domain reset driven.**  For every schedule that also drives
+the output domain's reset, every `reset_less` / `async_reset` combination, the output shows the
+value of the input sampled at the `n`-th most recent output edge since the line was last reset
+(never, for a reset-less line), or the value of `init`. -/
+theorem ffr_refines (n w : Nat) (sg : Bool) (wo : Nat) (init : Int) (rl ad : Bool) (i0 : Nat)
+    (evs : List REv) (hn : 1 ≤ n) :
+    Model.ffrOut n w sg wo init rl ad i0 evs = ffrOut n w sg wo init (!rl) ad i0 evs := by
+  unfold Model.ffrOut ffrOut
+  rw [ffrRel_last n w init hn _ _ (ffrRel_run n w init rl ad i0 evs), extendTo_eq_delivered]
+
+/-- **A reset-less synchroniser is unaffected by the reset of its output domain**, synchronous or
+asynchronous: its output after any schedule is the delay-line contract (`ff_latency`) applied to
+the schedule with the reset events taken out. -/
+theorem ff_reset_less_unaffected (n w : Nat) (sg : Bool) (wo : Nat) (init : Int) (ad : Bool)
+    (i0 : Nat) (evs : List REv) (hn : 1 ≤ n) :
+    Model.ffrOut n w sg wo init true ad i0 evs
+      = delivered sg w wo (ffOut n w init i0 (eraseRst evs)) := by
+  unfold Model.ffrOut
+  rw [ffr_resetless_last, ff_latency n w init i0 _ hn, extendTo_eq_delivered]
+
+/-- without reset events the general model is the plain delay line of `ff_latency` -/
+theorem ffr_no_reset (n w : Nat) (sg : Bool) (wo : Nat) (init : Int) (rl ad : Bool) (i0 : Nat)
+    (evs : List Ev) (hn : 1 ≤ n) :
+    Model.ffrOut n w sg wo init rl ad i0 (evs.map REv.ev)
+      = delivered sg w wo (ffOut n w init i0 evs) := by
+  rw [ffr_refines n w sg wo init rl ad i0 _ hn]
+  unfold ffrOut ffOut
+  congr 1
+  have key : ∀ (r : FFRObs) (t : FFObs), r.inp = t.inp → r.rst = false → r.samples = t.samples →
+      ((evs.map REv.ev).foldl (FFRObs.step w (!rl) ad) r).samples
+        = (evs.foldl (FFObs.step w) t).samples := by
+    induction evs with
+    | nil => intro r t _ _ hs; exact hs
+    | cons e es ih =>
+      intro r t hi hr hs
+      rw [List.map_cons, List.foldl_cons, List.foldl_cons]
+      cases e with
+      | set v => exact ih _ _ rfl hr hs
+      | iedge => exact ih _ _ hi hr hs
+      | oedge =>
+        apply ih <;> simp [FFRObs.step, FFObs.step, hr, hi, hs]
+      | both =>
+        apply ih <;> simp [FFRObs.step, FFObs.step, hr, hi, hs]
+  unfold FFRObs.out FFObs.out ffrObserve ffObserve
+  rw [key _ (FFObs.start w i0) rfl rfl rfl]
+
+/-- tests: `-1` on a `signed(4)` input arrives as `-1` (pattern 255) on an 8-bit output, not as 15;
+a negative `init` likewise; narrowing truncates; an unsigned input is zero-extended.  Reset: a
+reset-less 2-stage line keeps the 1 in flight across a reset (sync or async); a resettable line
+shows `init` again at the next edge (sync) or at once (async). -/
+example :
+    Model.ffrOut 2 4 true 8 0 true false 0 [.ev (.set 15), .ev .oedge, .ev .oedge] = 255 ∧
+    Model.ffrOut 3 4 true 8 (-3) true false 0 [] = 253 ∧
+    Model.ffrOut 2 8 true 4 0 true false 0 [.ev (.set 0x9c), .ev .oedge, .ev .oedge] = 12 ∧
+    Model.ffrOut 2 4 false 8 0 true false 0 [.ev (.set 15), .ev .oedge, .ev .oedge] = 15 ∧
+    Model.ffrOut 2 1 false 1 0 true true 0 [.ev (.set 1), .ev .oedge, .rst 1, .ev .oedge] = 1 ∧
+    Model.ffrOut 2 1 false 1 0 false true 0 [.ev (.set 1), .ev .oedge, .ev .oedge, .rst 1] = 0 ∧
+    Model.ffrOut 2 1 false 1 0 false false 0 [.ev (.set 1), .ev .oedge, .ev .oedge, .rst 1] = 1 ∧
+    Model.ffrOut 2 1 false 1 0 false false 0 [.ev (.set 1), .ev .oedge, .ev .oedge, .rst 1, .ev .oedge] = 0 := by
   decide
 
 /-! ## AsyncFFSynchronizer / ResetSynchronizer -/
@@ -203,5 +275,22 @@ theorem ctor_async (s : Option Int) (wi wo : Nat) (e : Bool) :
   rw [ctor_stages]
   cases stagesCtor s <;> simp only []
   by_cases h1 : wi = 1 <;> by_cases h2 : wo = 1 <;> cases e <;> simp [h1, h2]
+
+/-! ## Elaboration -/
+
+/-- **Which primitives refuse a falling-edge output domain.**  The `RequirePosedge` fragments left
+by `elaborate` make `AsyncFFSynchronizer` (for *either* `async_edge`) and `ResetSynchronizer` fail
+with `DomainRequirementFailed` exactly on a `clk_edge="neg"` output domain; `FFSynchronizer` and
+`PulseSynchronizer` elaborate on both. -/
+theorem elab_posedge_requirement (p : Prim) (asyncEdgePos negDomain : Bool) :
+    Model.elaborate p asyncEdgePos negDomain = elabContract p negDomain := by
+  cases p <;> cases asyncEdgePos <;> cases negDomain <;> rfl
+
+/-- test: the requirement does not depend on the asynchronous edge -/
+example :
+    Model.elaborate .asyncFFSync false true = .domainRequirementFailed ∧
+    Model.elaborate .asyncFFSync false false = .ok ∧
+    Model.elaborate .ffSync true true = .ok := by
+  decide
 
 end Amaranth.C17
